@@ -121,7 +121,7 @@ Proof.
       apply Body; auto.
     + destruct (1000 * full <? alloc_shared t s p); [|discriminate].
       destruct (subseteqb X (free_shar s p) && (csize X =? full)) eqn:HX; [|discriminate].
-      destruct (desc_safeb t s p X && desc_users_okb t s p X) eqn:HDS; [|discriminate].
+      destruct (spare_okb t s p X) eqn:HDS; [|discriminate].
       apply andb_true_iff in HX as [HX Hsz]. apply subseteqb_true in HX. apply Z.eqb_eq in Hsz.
       apply Body; auto.
   - destruct (bool_decide (X = ∅)) eqn:HX; [|discriminate].
@@ -204,7 +204,7 @@ Proof.
     + destruct (subseteqb X (free_iso s p) && (csize X =? full)); [|discriminate]. apply Body.
     + destruct (1000 * full <? alloc_shared t s p); [|discriminate].
       destruct (subseteqb X (free_shar s p) && (csize X =? full)); [|discriminate].
-      destruct (desc_safeb t s p X && desc_users_okb t s p X); [|discriminate]. apply Body.
+      destruct (spare_okb t s p X); [|discriminate]. apply Body.
   - destruct (bool_decide (X = ∅)); [|discriminate]. apply Body.
 Qed.
 
